@@ -1,5 +1,5 @@
 (** C17 — proofs relating Y (interp/build.go) and G (go/build). *)
-From Verif Require Import Lib.Str Build.Model.
+From Verif Require Import Lib.Str Build.Model Build.Release.
 From Verif Require Import gen.BuildLists_gen.
 
 (* ------------------------------------------------------------------ *)
@@ -20,7 +20,7 @@ Definition first_not_bang (t : str) : bool :=
 
 Definition plain_tag (c : ctx) (t : str) : bool :=
   first_not_bang t && nosepb comma t && all_nospace t
-  && negb (has_prefix (s "go1.") t) && negb (g_special c t).
+  && (negb (has_prefix (s "go1.") t) || release_canon t) && negb (g_special c t).
 
 Definition plain_opt (c : ctx) (o : plusopt) : bool :=
   match o with [] => false | _ => forallb (fun t => plain_tag c (snd t)) o end.
@@ -45,46 +45,57 @@ Proof.
   apply str_eqb_eq in H; subst t. apply (has_prefix_app (s "go1.")).
 Qed.
 
-Lemma g_match_plain c t :
-  negb (has_prefix (s "go1.") t) = true -> negb (g_special c t) = true ->
-  g_match_tag c t = mem t (btags c) || str_eqb t (goos c) || str_eqb t (goarch c).
+Lemma g_match_nospecial c t :
+  negb (g_special c t) = true ->
+  g_match_tag c t = mem t (btags c) || str_eqb t (goos c) || str_eqb t (goarch c) || mem t (release_tags c).
 Proof.
-  intros Hp Hs. rewrite negb_true_iff in Hp, Hs.
-  assert (Hr : mem t (release_tags c) = false).
-  { destruct (mem t (release_tags c)) eqn:E; [|reflexivity].
-    apply release_prefix in E; congruence. }
-  unfold g_special in Hs. unfold g_match_tag. rewrite Hr.
+  intros Hs. rewrite negb_true_iff in Hs.
+  unfold g_special in Hs. unfold g_match_tag.
   repeat rewrite orb_false_iff in Hs.
   destruct Hs as [[[[[[H1 H2] H3] H4] H5] H6] H7].
-  rewrite H1, H2, H3, H4, H5, H6, H7. simpl.
+  rewrite H1, H2, H3, H4, H5, H6, H7. cbn [orb].
   rewrite !orb_false_r.
-  destruct (str_eqb t (goos c)), (str_eqb t (goarch c)), (mem t (btags c)); reflexivity.
+  destruct (str_eqb t (goos c)), (str_eqb t (goarch c)), (mem t (btags c)), (mem t (release_tags c)); reflexivity.
 Qed.
 
-Lemma y_tag_plain c t :
-  first_not_bang t = true -> negb (has_prefix (s "go1.") t) = true ->
-  forall neg, y_tag_ok c (print_term (neg, t)) =
-              Some (xorb neg (mem t (btags c) || str_eqb t (goos c) || str_eqb t (goarch c))).
+Lemma y_tag_print c t neg :
+  first_not_bang t = true -> y_tag_ok c (print_term (neg, t)) = Some (xorb neg (y_tag_val c t)).
 Proof.
-  intros Hb Hp neg. rewrite negb_true_iff in Hp.
-  destruct t as [|a r]; [discriminate|]. simpl in Hb. rewrite negb_true_iff in Hb.
-  destruct neg; unfold print_term; cbn [fst snd].
-  - unfold y_tag_ok. rewrite Ascii.eqb_refl. rewrite Hp, andb_false_r.
-    destruct (mem (a :: r) (btags c)); [reflexivity|].
-    destruct (str_eqb (a :: r) (goos c)); [reflexivity|].
-    destruct (str_eqb (a :: r) (goarch c)); reflexivity.
-  - unfold y_tag_ok. rewrite Hb. rewrite Hp, andb_false_r.
-    destruct (mem (a :: r) (btags c)); [reflexivity|].
-    destruct (str_eqb (a :: r) (goos c)); [reflexivity|].
-    destruct (str_eqb (a :: r) (goarch c)); reflexivity.
+  intros Hb. destruct t as [|a r]; [discriminate|]. cbn [first_not_bang] in Hb. rewrite negb_true_iff in Hb.
+  destruct neg; unfold print_term; cbn [fst snd]; unfold y_tag_ok.
+  - now rewrite Ascii.eqb_refl.
+  - now rewrite Hb.
+Qed.
+
+Lemma y_val_noprefix c t :
+  has_prefix (s "go1.") t = false ->
+  y_tag_val c t = mem t (btags c) || str_eqb t (goos c) || str_eqb t (goarch c).
+Proof.
+  intros Hp. unfold y_tag_val. rewrite Hp, andb_false_r.
+  destruct (mem t (btags c)), (str_eqb t (goos c)), (str_eqb t (goarch c)); reflexivity.
+Qed.
+
+Lemma tag_val_agree c t :
+  (negb (has_prefix (s "go1.") t) || release_canon t) = true -> negb (g_special c t) = true ->
+  y_tag_val c t = g_match_tag c t.
+Proof.
+  intros Hp Hs. rewrite (g_match_nospecial c t Hs).
+  apply orb_true_iff in Hp. destruct Hp as [Hp|Hp].
+  - rewrite negb_true_iff in Hp. rewrite (y_val_noprefix c t Hp).
+    assert (Hr : mem t (release_tags c) = false).
+    { destruct (mem t (release_tags c)) eqn:E; [|reflexivity]. apply release_prefix in E; congruence. }
+    now rewrite Hr, orb_false_r.
+  - apply release_canon_spec in Hp. destruct Hp as [n [H1 [Hr ->]]].
+    change (s "go1.") with go1. rewrite (y_release_val c n Hr), (g_release c n).
+    replace (1 <=? n) with true by (symmetry; now apply Nat.leb_le). reflexivity.
 Qed.
 
 Lemma tag_agree c t neg :
   plain_tag c t = true -> y_tag_ok c (print_term (neg, t)) = Some (g_term c (neg, t)).
 Proof.
   unfold plain_tag; rewrite !andb_true_iff; intros [[[[Hb _] _] Hp] Hs].
-  rewrite y_tag_plain by assumption. unfold g_term; cbn [fst snd].
-  now rewrite g_match_plain.
+  rewrite y_tag_print by assumption. unfold g_term; cbn [fst snd].
+  now rewrite (tag_val_agree c t Hp Hs).
 Qed.
 
 (* ------------------------------------------------------------------ *)
@@ -521,7 +532,7 @@ Lemma y_and_total c ts : y_and c ts <> None.
 Proof.
   induction ts as [|t ts IH]; cbn [y_and]; [discriminate|].
   destruct (y_tag_ok c t) as [[|]|] eqn:E; [exact IH|discriminate|].
-  destruct t; cbn [y_tag_ok] in E; discriminate E.
+  destruct t; unfold y_tag_ok in E; discriminate E.
 Qed.
 
 Lemma y_or_total c os : y_or c os <> None.
@@ -557,7 +568,8 @@ Proof. repeat split; vm_compute; reflexivity. Qed.
 (** non-vacuity of the side conditions *)
 Definition h_example : header :=
   {| hgobuild := None;
-     hplus := [[[(false, s "linux"); (true, s "foo")]; [(false, s "darwin")]]; [[(true, s "ignore")]]];
+     hplus := [[[(false, s "linux"); (true, s "foo")]; [(false, s "darwin")]]; [[(true, s "ignore")]];
+               [[(false, s "go1.21")]; [(true, s "go1.99")]]];
      hdoc := []; hytags := [] |}.
 
 Lemma plain_header_inhabited :
